@@ -524,6 +524,15 @@ static void csr_layout(const std::string& L, const Ctx& c, Files<E>& files,
   }
 }
 
+// Cost model.  On this kind of machine a Galois parallel region with 3-4
+// (sleeping) pool threads costs ~0.1 ms, and transpose() alone is ~16 regions.
+// For the enumerated small graphs the full programme (every builder, every
+// view) therefore runs with T = 1 and T = 2; with T = 3 and T = 4 each layout
+// is built by readGraph (the per-thread constructFrom, whose node division is
+// what depends on T) and gets the non-modifying checks incl. the local ranges.
+// The structured family runs the full programme for every T.
+static bool full_programme(const Ctx& c) { return c.T <= 2 || !c.r.small(); }
+
 // Default layout: every builder, every view.  NUMA-blocked: file builders and
 // every view (transpose allocates blocked).  The lockable options change the
 // node record size, i.e. the weights of the per-thread division: readGraph only.
@@ -531,10 +540,12 @@ template <class E>
 static void csr_run(const Ctx& c) {
   Files<E> files(c.r);
   Adj obs;
+  bool full = full_programme(c);
   typedef gg::LC_CSR_Graph<int, E> G0;
-  csr_layout<E, G0>("LC_CSR_Graph", c, files, B_VIEWS | B_V2 | B_ALL, &obs);
+  csr_layout<E, G0>("LC_CSR_Graph", c, files,
+                    full ? B_VIEWS | B_V2 | B_ALL : B_V2, &obs);
   csr_layout<E, typename G0::template with_numa_alloc<true>::type>(
-      "LC_CSR_Graph<numa>", c, files, B_VIEWS | B_V2, nullptr);
+      "LC_CSR_Graph<numa>", c, files, full ? B_VIEWS | B_V2 : 0, nullptr);
   csr_layout<E, typename G0::template with_no_lockable<true>::type>(
       "LC_CSR_Graph<no_lockable>", c, files, 0, nullptr);
   csr_layout<E, typename G0::template with_out_of_line_lockable<true>::type>(
